@@ -373,9 +373,34 @@ func charClass(s string) string {
 }
 
 // planJSON renders the resource set as `terraform show -json` planned values.
-func planJSON(c *worker.Ctx, r *simnet.Resources) []byte {
+// svcSpec is one fastly_service_vcl of a generated plan.
+type svcSpec struct {
+	ID, Name string
+	R        *simnet.Resources
+}
+
+// planJSON renders a Terraform plan holding every given service; each
+// service's entries, items and dynamic snippet contents are separate
+// resources tied to it by service_id, in root or child modules.
+func planJSON(c *worker.Ctx, svcs []svcSpec) []byte {
+	var resources, child []any
+	for _, sv := range svcs {
+		rs, ch := planService(c, sv)
+		resources = append(resources, rs...)
+		child = append(child, ch...)
+	}
+	root := map[string]any{"resources": resources}
+	if len(child) > 0 {
+		root["child_modules"] = []any{map[string]any{"resources": child}}
+	}
+	b, _ := json.Marshal(map[string]any{"format_version": "1.0", "planned_values": map[string]any{"root_module": root}})
+	return b
+}
+
+func planService(c *worker.Ctx, sv svcSpec) (resources, child []any) {
+	r := sv.R
 	prov := "registry.terraform.io/fastly/fastly"
-	svc := map[string]any{"id": "SID", "name": "svc"}
+	svc := map[string]any{"id": sv.ID, "name": sv.Name}
 	var acls, dicts, backs, dirs, snips, dyns []any
 	for _, a := range r.Acls {
 		acls = append(acls, map[string]any{"name": a.Name})
@@ -408,8 +433,7 @@ func planJSON(c *worker.Ctx, r *simnet.Resources) []byte {
 	if r.ForceSSL {
 		svc["request_setting"] = []any{map[string]any{"force_ssl": true}}
 	}
-	resources := []any{map[string]any{"provider_name": prov, "type": "fastly_service_vcl", "values": svc}}
-	var child []any
+	resources = []any{map[string]any{"provider_name": prov, "type": "fastly_service_vcl", "values": svc}}
 	for _, a := range r.Acls {
 		var es []any
 		for _, e := range a.Entries {
@@ -419,7 +443,7 @@ func planJSON(c *worker.Ctx, r *simnet.Resources) []byte {
 			}
 			es = append(es, m)
 		}
-		res := map[string]any{"provider_name": prov, "type": "fastly_service_acl_entries", "index": a.Name, "values": map[string]any{"service_id": "SID", "entry": es}}
+		res := map[string]any{"provider_name": prov, "type": "fastly_service_acl_entries", "index": a.Name, "values": map[string]any{"service_id": sv.ID, "entry": es}}
 		if c.T.Bool(1, 3) {
 			child = append(child, res)
 		} else {
@@ -434,7 +458,7 @@ func planJSON(c *worker.Ctx, r *simnet.Resources) []byte {
 		for _, it := range d.Items {
 			items[it.Key] = it.Value
 		}
-		res := map[string]any{"provider_name": prov, "type": "fastly_service_dictionary_items", "index": d.Name, "values": map[string]any{"service_id": "SID", "items": items}}
+		res := map[string]any{"provider_name": prov, "type": "fastly_service_dictionary_items", "index": d.Name, "values": map[string]any{"service_id": sv.ID, "items": items}}
 		if c.T.Bool(1, 3) {
 			child = append(child, res)
 		} else {
@@ -443,15 +467,10 @@ func planJSON(c *worker.Ctx, r *simnet.Resources) []byte {
 	}
 	for _, s := range r.Snippets {
 		if s.Dynamic {
-			resources = append(resources, map[string]any{"provider_name": prov, "type": "fastly_service_dynamic_snippet_content", "values": map[string]any{"service_id": "SID", "snippet_id": s.ID, "content": s.Content}})
+			resources = append(resources, map[string]any{"provider_name": prov, "type": "fastly_service_dynamic_snippet_content", "values": map[string]any{"service_id": sv.ID, "snippet_id": s.ID, "content": s.Content}})
 		}
 	}
-	root := map[string]any{"resources": resources}
-	if len(child) > 0 {
-		root["child_modules"] = []any{map[string]any{"resources": child}}
-	}
-	b, _ := json.Marshal(map[string]any{"format_version": "1.0", "planned_values": map[string]any{"root_module": root}})
-	return b
+	return resources, child
 }
 
 func runC20(c *worker.Ctx) {
@@ -469,6 +488,27 @@ func runC20(c *worker.Ctx) {
 	var rd *simio.Reader
 	var plan simio.Plan
 	injected := map[string]bool{}
+	// Terraform path: the plan may hold further services; cmd/falco builds one
+	// fetcher for the plan and, service after service, selects it with SetName
+	// and generates. Every service must get exactly its own resources.
+	svcs := []svcSpec{{"SID", "svc", r}}
+	type svcOut struct {
+		snips *snippet.Snippets
+		err   error
+		ran   bool
+	}
+	outs := map[string]*svcOut{}
+	if terra && c.T.Bool(1, 2) {
+		for _, d := range [][2]string{{"SID2", "svc-b"}, {"SID3", "a svc"}}[:1+c.T.Draw(2)] {
+			svcs = append(svcs, svcSpec{d[0], d[1], drawResources(c)})
+		}
+		p := c.T.Perm(len(svcs))
+		shuffled := make([]svcSpec, len(svcs))
+		for i, j := range p {
+			shuffled[i] = svcs[j]
+		}
+		svcs = shuffled
+	}
 	ev := bubble(c.TB, func() {
 		s = ssched.New(c.T)
 		s.KeepTrace = c.Render
@@ -485,7 +525,7 @@ func runC20(c *worker.Ctx) {
 		done := make(chan struct{}, 1)
 		go s.Run()
 		if terra {
-			data := planJSON(c, r)
+			data := planJSON(c, svcs)
 			plan = simio.DrawPlan(c.T, len(data), faulty)
 			if faulty && c.T.Bool(1, 3) {
 				plan.Stall = []time.Duration{10*time.Second - 50*time.Millisecond, 10*time.Second + 50*time.Millisecond, 3 * time.Second, time.Hour}[c.T.Draw(4)]
@@ -505,7 +545,24 @@ func runC20(c *worker.Ctx) {
 					finished = true
 					return
 				}
-				snips, ferr = snippet.Fetch(terraform.NewTerraformFetcher(services))
+				fetcher := terraform.NewTerraformFetcher(services)
+				if len(svcs) == 1 && c.T.Bool(1, 2) {
+					// a fetcher on which no service was selected serves the whole (one-service) plan
+					snips, ferr = snippet.Fetch(fetcher)
+					finished = true
+					return
+				}
+				for _, sv := range services { // the order cmd/falco walks its resolvers in
+					fetcher.SetName(sv.Name)
+					o := &svcOut{ran: true}
+					o.snips, o.err = snippet.Fetch(fetcher)
+					outs[sv.Name] = o
+				}
+				if o := outs["svc"]; o != nil {
+					snips, ferr = o.snips, o.err
+				} else {
+					ferr = fmt.Errorf("service %q of the plan was not among the parsed services", "svc")
+				}
 				finished = true
 			})
 		} else {
@@ -600,7 +657,11 @@ func runC20(c *worker.Ctx) {
 		res.Violate("C20/progress", "C20/did-not-finish:"+path, desc())
 	}
 	outcome := "error"
-	if len(res.Violations) == 0 {
+	judge := func(r *simnet.Resources, snips *snippet.Snippets, ferr error, which string) {
+		desc := func() string {
+			b, _ := json.Marshal(r)
+			return which + clip(string(b), 2500)
+		}
 		if ferr != nil {
 			res.Probe("fetch_error_reported")
 			if len(injected) == 0 {
@@ -640,6 +701,25 @@ func runC20(c *worker.Ctx) {
 				} else if len(injected) > 0 {
 					res.Probe("complete_result_despite_fault")
 				}
+			}
+		}
+	}
+	if len(res.Violations) == 0 {
+		judge(r, snips, ferr, "")
+		if len(svcs) > 1 && ferr == nil {
+			res.Probe("terraform_multi_service_plan")
+			for _, sv := range svcs {
+				if sv.Name == "svc" || len(res.Violations) > 0 {
+					continue
+				}
+				o := outs[sv.Name]
+				if o == nil {
+					res.Violate("C20/F1-faithful", "C20/service-missing:terraform", fmt.Sprintf("service %q of the plan was not among the parsed services\nplan services: %d", sv.Name, len(svcs)))
+					continue
+				}
+				keep := outcome
+				judge(sv.R, o.snips, o.err, fmt.Sprintf("(service %q, selected with SetName after the services before it) ", sv.Name))
+				outcome = keep
 			}
 		}
 	}
